@@ -13,12 +13,14 @@ func init() { register("C07", checkC07) }
 var c07Atoms = []string{`null`, `true`, `false`, `0`, `1`, `-1`, `1.5`, `""`, `"a"`, `"1"`, `[]`, `{}`}
 
 func checkC07(r *harness.Run) harness.Coverage {
-	r.Rule = "operands from W = V(2,1,A,{a}) with A = {null,true,false,0,1,-1,1.5,\"\",\"a\",\"1\",[],{}} plus 22 values differing only in key set, member order, element order or nesting (106 values), as literals and as document fields: all pairs x all eight binary operators, !x, !!x; all nestings of the fragment {||,&&,!,six comparators,parentheses} over fields a,b,c up to the structural weight bound against all operand triples of a 12-value subset; the same conditions inside filters over arrays of W-values; short-circuit probes whose unevaluated side is an erroring call. Non-trivial = reference outcome non-null or error; distinct by (expression, document)"
+	r.Rule = "operands from W = V(2,1,A,{a}) with A = {null,true,false,0,1,-1,1.5,\"\",\"a\",\"1\",[],{}} plus 22 values differing only in key set, member order, element order or nesting (106 values), as literals and as document fields: all pairs x all eight binary operators, !x, !!x; all nestings of the fragment {||,&&,!,six comparators,parentheses} over fields a,b,c up to the structural weight bound against all operand triples of a 12-value subset; the same conditions inside filters over arrays of W-values; short-circuit probes whose unevaluated side is an erroring call; 25 computed operands (function results, projections, slices, multi-selects that are empty or not) against each other and against literals. Non-trivial = reference outcome non-null or error; distinct by (expression, document)"
 	r.Assumptions = []string{"reference truth table, deep equality and numbers-only ordering: model/eval.go", "operand universe bounded to nesting depth 2, width 1"}
 	W := univ.Values(2, 1, univ.Js(c07Atoms...), []string{"a"})
 	// values that differ only in key set, member order, element order or nesting
 	W = append(W, univ.Js(`{"b":null}`, `{"b":1}`, `{"a":1,"b":2}`, `{"b":2,"a":1}`, `{"a":2,"b":1}`, `{"a":1,"b":null}`, `{"a":1,"c":null}`, `[1,2]`, `[2,1]`, `[1,[2]]`, `[[1],2]`, `[null]`, `[null,null]`,
-		`{"a":{"b":null}}`, `{"a":{"c":null}}`, `[{"a":null}]`, `[{"b":null}]`, `"A"`, `"é"`, `2`, `1e0`, `-0.0`)...)
+		`{"a":{"b":null}}`, `{"a":{"c":null}}`, `[{"a":null}]`, `[{"b":null}]`, `"A"`, `"é"`, `2`, `1e0`, `-0.0`,
+		// numbers that differ by one part in 10^10 .. 10^16 (equality is exact, no tolerance)
+		`1.0000000001`, `1000000000000001`, `1000000000000002`, `0.3`, `0.30000000000000004`)...)
 	sub := univ.Js(`null`, `true`, `false`, `0`, `1`, `2`, `""`, `"a"`, `[]`, `[0]`, `{}`, `{"a":null}`)
 	ops := []string{"||", "&&", "==", "!=", "<", "<=", ">", ">="}
 	var total conformStats
@@ -119,6 +121,27 @@ func checkC07(r *harness.Run) harness.Coverage {
 		}
 	}
 	run(filterExprs, arrDocs)
+	// (5) operands that are COMPUTED (function results, projections, slices, multi-selects) rather than read
+	// from the document or a literal: an empty result must compare equal to `[]` / `{}` and be false-like
+	// whichever way the implementation happened to allocate it
+	computed := []string{"values(o)", "keys(o)", "o.*", "e[*]", "e[]", "e[?@]", "e[:]", "e[::-1]", "map(&@, e)", "sort(e)", "reverse(e)", "to_array(e)", "merge(o)", "merge(o, o)", "[e][0]", "{x: o}.x",
+		"e[?`false`]", "sort_by(e, &@)", "not_null(e)", "not_null(o)", "e[1:]", "o.*.a", "e[*].a", "[e[0]]", "to_array(o)"}
+	cmpLits := []string{"`[]`", "`{}`", "`[1]`", "`{\"a\":1}`", "`null`", "`[null]`", "`[[]]`", "`[{}]`"}
+	var compExprs []exprCase
+	for _, x := range computed {
+		compExprs = append(compExprs, exprFromText("!"+x), exprFromText(x+" || 'f'"), exprFromText(x+" && 't'"), exprFromText("[?"+x+"]"))
+		for _, op := range []string{"==", "!=", "<"} {
+			for _, l := range cmpLits {
+				compExprs = append(compExprs, exprFromText(x+" "+op+" "+l), exprFromText(l+" "+op+" "+x))
+			}
+			for _, y := range computed {
+				compExprs = append(compExprs, exprFromText(x+" "+op+" "+y))
+			}
+		}
+		compExprs = append(compExprs, exprFromText("["+x+"] == `[[]]`"), exprFromText("{k: "+x+"} == `{\"k\":[]}`"), exprFromText("contains(`[[], {}]`, "+x+")"), exprFromText("contains(["+x+"], `[]`)"))
+	}
+	run(compExprs, univ.Js(`{"o":{},"e":[]}`, `{"o":{"a":1},"e":[1]}`, `{"o":{"a":[]},"e":[[]]}`, `{"o":null,"e":null}`, `[1]`))
+	r.Note("computed_operands", len(computed))
 	finishConform(r, total, nexpr, ndocs)
 	r.Note("operand_values", len(W))
 	r.Sample(map[string]interface{}{"expression": "a < b", "document": `{"a":"a","b":"b"}`, "model_outcome": "null (ordering comparators are numbers-only)"})
